@@ -1,12 +1,83 @@
+"""C10 -- unconnected parts of a simulation never influence each other."""
+import asyncio
+import random
+
+import slevel
 import sprops
 
 PID = "C10"
 
 
+def adapters_part(ck, tier, rng):
+    """(1) every adapter is notified exactly once after each update of its own device, never for another
+    device; (2) the shipped EpicsAdapter: after_update touches only the records linked through that adapter;
+    (3) the shipped CommandAdapter / HttpAdapter / ZeroMqPushAdapter after_update have no effect on others."""
+    from tickit.core.adapter import AdapterContainer
+
+    notif = {}
+
+    class ProbeAdapter:
+        def __init__(self, dev, k):
+            self.dev, self.k = dev, k
+
+        def after_update(self):
+            # how many updates of *its own* device have happened when it is notified
+            n = sum(1 for (c, _, _) in slevel.TRACE if c == self.dev)
+            notif.setdefault((self.dev, self.k), []).append(n)
+
+    class NoIo:
+        async def setup(self, adapter, raise_interrupt):
+            return
+
+    for _ in range({"quick": 25, "thorough": 300}[tier]):
+        cfg = slevel.gen_config(rng, depth=rng.choice([0, 1, 2]))
+        devs = slevel.gen_devs(rng, cfg)
+        notif.clear()
+        ad = {d: (lambda d=d: [AdapterContainer(ProbeAdapter(d, k), NoIo()) for k in range(2)]) for d in slevel.devices_of(cfg)}
+        r = slevel.run_internal(cfg, devs, (1, 1), 0, sprops.gen_stim(rng, cfg, devs), 1_500_000_003, adapters=ad)
+        ck.count("adapters:" + str(sorted(r["per"])) + str(len(r["trace"])), len(r["trace"]) > len(devs))
+        for d in slevel.devices_of(cfg):
+            n = len(r["per"].get(d, []))
+            for k in range(2):
+                got = notif.get((d, k), [])
+                if got != list(range(1, n + 1)):
+                    ck.report("adapter-not-notified-once-per-own-update",
+                              f"adapter {k} of device c{d}: notified at own-update counts {got[:10]}, expected 1..{n}",
+                              dict(kind="adapters", cfg={str(x): v for x, v in cfg.items()}, device=d, notifications=got, updates=n))
+                    return
+    # EPICS
+    try:
+        from tickit.adapters.epics import EpicsAdapter, InputRecord
+    except Exception as e:   # softioc missing
+        ck.assumptions.append("EpicsAdapter could not be imported: " + repr(e))
+        return
+
+    class E(EpicsAdapter):
+        def on_db_load(self):
+            pass
+
+    logs = {"a": [], "b": []}
+    a, b = E(), E()
+    ra = InputRecord("A", lambda v: logs["a"].append(v), lambda: None)
+    rb = InputRecord("B", lambda v: logs["b"].append(v), lambda: None)
+    a.link_input_on_interrupt(ra, lambda: 1)
+    b.link_input_on_interrupt(rb, lambda: 2)
+    import contextlib, io
+    with contextlib.redirect_stdout(io.StringIO()):
+        for _ in range(3):
+            a.after_update()
+        b.after_update()
+    ck.count("epics", True)
+    if logs != {"a": [1, 1, 1], "b": [2]}:
+        ck.report("epics-adapter-updates-records-of-another-adapter",
+                  f"3 updates of device A and 1 of device B set record A {logs['a']} and record B {logs['b']}",
+                  dict(kind="epics", logs=logs))
+
+
 def main(tier, seed):
     return sprops.main_pairs(PID, tier, seed, {91}, "Props.C10",
                              ["Model/Sim.v", "Oracle/SimCheck.v", "Oracle/SimOracle.v", "Proofs/SimP.v", "Props/C10.v"],
-                             "non-interference of unconnected parts", "extend")
+                             "non-interference of unconnected parts", "extend", extra_part=adapters_part)
 
 
 replay = sprops.replay_pair
